@@ -36,9 +36,12 @@ pub struct EnumInfo {
 }
 
 fn fmt_enum<T: ResponseData>(v: &T) -> Result<Vec<u8>, Error> {
+    #[cfg(feature = "full")]
     let mut buf: Vec<u8> = Vec::new();
+    #[cfg(not(feature = "full"))]
+    let mut buf: arrayvec::ArrayVec<u8, 64> = arrayvec::ArrayVec::new();
     v.format_response_data(&mut buf)?;
-    Ok(buf)
+    Ok(buf.to_vec())
 }
 
 #[allow(clippy::all)]
